@@ -327,6 +327,11 @@ impl C15 {
             ctx.count("mismatch/not-plantable");
             return;
         }
+        // the target may itself be optional (`Option<Config>`): one more way into the deserializer
+        if rng.chance(1, 4) {
+            shape = Shape::Opt(Box::new(shape));
+            ctx.count("mismatch/optional-root");
+        }
         let spans = crate::c14::expected_spans(&d);
         let want_span: Option<(usize, usize)> = ids.iter().find_map(|i| spans.value_span.get(i).copied());
         let r = guarded(|| {
@@ -437,7 +442,7 @@ impl Check for C15 {
         "C15"
     }
     fn workloads(&mut self, tier: Tier, _seed: u64) -> Vec<(String, u64)> {
-        let k = if tier == Tier::Quick { 1 } else { 16 };
+        let k = if tier == Tier::Quick { 8 } else { 64 };
         let corpus_bytes: u64 = docs::corpus().iter().map(|f| f.bytes.len() as u64 + 1).sum();
         vec![
             ("corpus".into(), docs::corpus().len() as u64),
